@@ -26,6 +26,10 @@ pub struct NodeSpec {
     /// module is still torn down exactly once
     #[serde(default)]
     pub panics: bool,
+    /// the module's number of start-up stages is changed to this value (mod 4) after the node was created, before
+    /// the simulation is built: what a module declares when the simulation starts is what counts
+    #[serde(default)]
+    pub late_stages: Option<u8>,
 }
 
 #[derive(Clone, Debug, Serialize, Deserialize)]
@@ -76,6 +80,8 @@ impl Module for M {
 }
 
 struct Tree {
+    /// stage count the node is created with (differs from `stages` for late-configured modules)
+    created_stages: Vec<usize>,
     panics: Vec<bool>,
     shuts_down: Vec<bool>,
     path: Vec<String>,
@@ -91,6 +97,7 @@ fn build_tree(case: &Case) -> Tree {
     let mut depth: Vec<usize> = Vec::new();
     let mut stages = Vec::new();
     let mut shuts = Vec::new();
+    let mut created = Vec::new();
     let mut panics = Vec::new();
     let mut prio = Vec::new();
     for (i, n) in case.nodes.iter().enumerate() {
@@ -113,7 +120,8 @@ fn build_tree(case: &Case) -> Tree {
         path.push(mk(&name));
         parent.push(par);
         depth.push(par.map_or(1, |p| depth[p] + 1));
-        stages.push((n.stages % 4) as usize);
+        created.push((n.stages % 4) as usize);
+        stages.push((n.late_stages.unwrap_or(n.stages) % 4) as usize);
         shuts.push(n.shuts_down);
         panics.push(n.panics);
         prio.push(n.prio);
@@ -130,7 +138,7 @@ fn build_tree(case: &Case) -> Tree {
         inserted[next] = true;
         order.push(next);
     }
-    Tree { panics, shuts_down: shuts, path, parent, stages, order }
+    Tree { created_stages: created, panics, shuts_down: shuts, path, parent, stages, order }
 }
 
 /// DFS pre-order with siblings in creation (= insertion) order.
@@ -168,7 +176,7 @@ pub fn run_case(case: &Case) -> Result<(bool, Vec<&'static str>), Failure> {
     let mut bad_done = 0;
     let mut inner = || -> Result<(), Failure> {
         for (k, &i) in t.order.iter().enumerate() {
-            sim.node(t.path[i].as_str(), M { stages: t.stages[i], shuts_down: t.shuts_down[i], panics: t.panics[i] });
+            sim.node(t.path[i].as_str(), M { stages: t.created_stages[i], shuts_down: t.shuts_down[i], panics: t.panics[i] });
             // rejected insertions after this step
             for (at, bad) in &case.bad {
                 if idx(*at, n) != k {
@@ -233,6 +241,13 @@ pub fn run_case(case: &Case) -> Result<(bool, Vec<&'static str>), Failure> {
                 }
             }
             vensure!(m.child("no-such-child").is_err(), "child-mismatch", "'{}' has a child 'no-such-child'", t.path[i]);
+        }
+        // late configuration through the module handle
+        for i in 0..n {
+            if t.created_stages[i] != t.stages[i] {
+                let m = sim.get(&ObjectPath::from(t.path[i].as_str())).expect("module");
+                m.as_mut::<M>().stages = t.stages[i];
+            }
         }
         let listed: Vec<String> = sim.nodes().map(|p| p.as_str().to_string()).collect();
         let want: Vec<String> = preorder(&t).iter().map(|i| t.path[*i].clone()).collect();
@@ -336,6 +351,9 @@ pub fn run_case(case: &Case) -> Result<(bool, Vec<&'static str>), Failure> {
     if any_panic {
         labels.push("a-module-panicked-during-the-run");
     }
+    if (0..n).any(|i| t.created_stages[i] != t.stages[i]) {
+        labels.push("stage-count-changed-after-node-creation");
+    }
     if (0..n).any(|i| t.shuts_down[i] && t.stages[i] >= 1) {
         labels.push("module-shut-down-before-the-end");
     }
@@ -367,8 +385,8 @@ impl Prop for C12 {
     }
     fn strategy(tier: Tier) -> BoxedStrategy<Case> {
         let max = tier.pick(16, 25);
-        let node = (proptest::option::weighted(0.7, any::<u16>()), 0u8..NAMES.len() as u8, 0u8..4, any::<u16>(), proptest::bool::weighted(0.15), proptest::bool::weighted(0.04))
-            .prop_map(|(parent, name, stages, prio, shuts_down, panics)| NodeSpec { parent, name, stages, prio, shuts_down, panics });
+        let node = (proptest::option::weighted(0.7, any::<u16>()), 0u8..NAMES.len() as u8, 0u8..4, any::<u16>(), proptest::bool::weighted(0.15), proptest::bool::weighted(0.04), proptest::option::weighted(0.15, 0u8..4))
+            .prop_map(|(parent, name, stages, prio, shuts_down, panics, late_stages)| NodeSpec { parent, name, stages, prio, shuts_down, panics, late_stages });
         let bad = (any::<u16>(), prop_oneof![any::<u16>().prop_map(Bad::Duplicate), any::<u16>().prop_map(Bad::Orphan)]);
         (proptest::collection::vec(node, 1..max), proptest::collection::vec(bad, 0..3))
             .prop_map(|(nodes, bad)| Case { nodes, bad })
